@@ -1,4 +1,4 @@
-import B6.Lemmas.MutableRoot
+import B6.Lemmas.MutableCanary
 /-!
 # C13 — A rejected change leaves the world as it was
 
@@ -306,6 +306,35 @@ theorem merged_atomic_tags {b : View} {o : Oracle} {l : Layer} (hb : b.IdsOK) (h
     (∃ e, e ≠ Err.partiallyApplied ∧ mergedApply b o l cs = (l, some e)) :=
   merged_atomic_partial b o l cs (canary_faithful_tags hb hl cs hc)
 
+/-! ### the canary is faithful for every change list, given agreeing `FindReferences` -/
+
+/-- **Canary faithfulness, general.** For ANY change list (AddFeatures, AddTags, RemoveTags parts in any
+number and order): if, run in lock step, the canary and the world return the same referrers from
+`FindReferences` before every `AddFeature` (`canaryRefsAgree`, an executable check the driver evaluates on
+every merged change; it is what C15's `overlay_find_refs_spec` asserts of each of the two worlds), then
+the fresh overlay over the world accepts the change **iff** the world does — they give the same answer.
+The proof is a simulation on what validation reads (geometry skeletons and locations, `Sim`); it relies
+on `ValidateArea` locating path ends in the world being validated
+(`fixes/C13-validate-area-locates-ends-in-world.patch` — before it the statement was false, see the corpus). -/
+theorem canary_faithful_of_refs {b : View} {o : Oracle} {l : Layer} (hb : b.IdsOK) (hbl : b.LocOK)
+    (hl : l.FeatsId) (cs : List Change) (href : canaryRefsAgree b o l cs = true) :
+    (applyAll (l.view b (l.loc b)) o Layer.empty cs).2 = (applyAll b o l cs).2 := by
+  rw [applyAll_eq_prims, applyAll_eq_prims]
+  exact prims_faithful (view_idsOK hb hl (l.loc b)) (view_locOK hbl l (l.loc b)) hb hbl _
+    Layer.empty l (sim_init b l hl) href
+
+theorem canary_faithful {b : View} {o : Oracle} {l : Layer} (hb : b.IdsOK) (hbl : b.LocOK)
+    (hl : l.FeatsId) (cs : List Change) (href : canaryRefsAgree b o l cs = true) : CanaryFaithful b o l cs := by
+  intro h
+  rw [← canary_faithful_of_refs hb hbl hl cs href]; exact h
+
+/-- **Merged changes are atomic** — for every change list on which the two `FindReferences` agree. -/
+theorem merged_atomic_of_refs {b : View} {o : Oracle} {l : Layer} (hb : b.IdsOK) (hbl : b.LocOK)
+    (hl : l.FeatsId) (cs : List Change) (href : canaryRefsAgree b o l cs = true) :
+    (∃ l', mergedApply b o l cs = (l', none) ∧ applyAll b o l cs = (l', none)) ∨
+    (∃ e, e ≠ Err.partiallyApplied ∧ mergedApply b o l cs = (l, some e)) :=
+  merged_atomic_partial b o l cs (canary_faithful hb hbl hl cs href)
+
 /-! ## Non-vacuity -/
 
 /-- base: a counter-clockwise triangle 1-2-3, closed path 1005 through it, area 2006 over the path -/
@@ -332,5 +361,12 @@ example :
       [.addTags [(1, ("name", ⟨"s", "x"⟩))], .addFeatures [⟨1005, [], .path [1, 2, 3]⟩]]
     r.2 = some Err.invalid ∧ tagOf (r.1.view b (r.1.loc b)) 1 "name" = some none := by
   decide
+
+/-- the hypotheses of `merged_atomic_of_refs` hold for the merged change above (a tag part and a feature
+part that is rejected through its referrer) -/
+example : (rootView exampleRoot).IdsOK ∧ (rootView exampleRoot).LocOK ∧ Layer.empty.FeatsId ∧
+    canaryRefsAgree (rootView exampleRoot) exampleOracle Layer.empty
+      [.addTags [(1, ("name", ⟨"s", "x"⟩))], .addFeatures [⟨1005, [], .path [1, 2, 3]⟩]] = true :=
+  ⟨rootView_idsOK _, rootView_locOK _, fun i f h => by simp [Layer.empty] at h, by decide⟩
 
 end B6.Props.C13
